@@ -1087,8 +1087,10 @@ class ComplexModelBase(ModelBase):
         fti = cls.get_flat_type_info(cls)
 
         retval = TypeInfo()
-        tags = set()
 
+        # the last element of a queue entry is the chain of classes that leads
+        # to it: a class is not expanded again below itself (self references)
+        # but it may appear any number of times in different branches.
         queue = deque()
         if prot is None:
             for k, v in fti.items():
@@ -1100,6 +1102,7 @@ class ComplexModelBase(ModelBase):
                     (sub_name,),
                     (_is_array(v),),
                     cls,
+                    (cls,),
                 ))
 
         else:
@@ -1115,12 +1118,11 @@ class ComplexModelBase(ModelBase):
                     (sub_name,),
                     (_is_array(v),),
                     cls,
+                    (cls,),
                 ))
 
-        tags.add(cls)
-
         while len(queue) > 0:
-            keys, v, prefix, is_array, parent = queue.popleft()
+            keys, v, prefix, is_array, parent, ancestors = queue.popleft()
             k = keys[-1]
             if issubclass(v, Array) and v.Attributes.max_occurs == 1:
                 v, = v._type_info.values()
@@ -1135,8 +1137,7 @@ class ComplexModelBase(ModelBase):
                     can_be_empty=True,
                 )
 
-                if not (v in tags):
-                    tags.add(v)
+                if not (v in ancestors):
                     if prot is None:
                         for k2, v2 in v.get_flat_type_info(v).items():
                             sub_name = k2
@@ -1145,7 +1146,8 @@ class ComplexModelBase(ModelBase):
                                 v2,
                                 prefix + (sub_name,),
                                 is_array + (_is_array(v),),
-                                v
+                                v,
+                                ancestors + (v,),
                             ))
 
                     else:
@@ -1161,6 +1163,7 @@ class ComplexModelBase(ModelBase):
                                 prefix + (sub_name,),
                                 is_array + (_is_array(v),),
                                 v,
+                                ancestors + (v,),
                             ))
 
             else:
